@@ -155,18 +155,22 @@ theorem lost_fails_everything_once (eps : List Endpoint) (h : List Ev)
 
 /-! ## Table facts (the table is regenerated from txdbus/endpoints.py on every run) -/
 
-/-- The transports the parser knows, in the code's order, and: every transport that can yield an
-endpoint (kind unix or tcp) strips exactly its own prefix; only nonce-tcp sets a flag. -/
+/-- Facts about the generated tables that the parser theorems rest on (row-wise, so that an additional
+transport row does not break them): the rows for unix:, tcp: and nonce-tcp: are there with these kinds, strip
+exactly their prefix, and only nonce-tcp sets a flag; every row that can yield an endpoint strips exactly its
+prefix; the path rules are path > tmpdir > abstract; separators and special words as in the DBus specification. -/
 theorem endpoint_prefix_table :
-    Txdbus.Gen.C09Endpoints.prefixTable.map (fun r => (r.1, r.2.1)) =
-      [(['u','n','i','x',':'], ['u','n','i','x']), (['t','c','p',':'], ['t','c','p']),
-       (['n','o','n','c','e','-','t','c','p',':'], ['t','c','p']),
-       (['l','a','u','n','c','h','d',':'], ['l','a','u','n','c','h','d'])] ∧
+    (['u','n','i','x',':'], ['u','n','i','x'], 5, none) ∈ Txdbus.Gen.C09Endpoints.prefixTable ∧
+    (['t','c','p',':'], ['t','c','p'], 4, none) ∈ Txdbus.Gen.C09Endpoints.prefixTable ∧
+    (['n','o','n','c','e','-','t','c','p',':'], ['t','c','p'], 10, some ['n','o','n','c','e','-','t','c','p']) ∈
+      Txdbus.Gen.C09Endpoints.prefixTable ∧
     (∀ r ∈ Txdbus.Gen.C09Endpoints.prefixTable,
       (r.2.1 = Txdbus.Gen.C09Endpoints.unixKind ∨ r.2.1 = Txdbus.Gen.C09Endpoints.tcpKind) → r.2.2.1 = r.1.length) ∧
-    Txdbus.Gen.C09Endpoints.prefixTable.filterMap (fun r => r.2.2.2) = [['n','o','n','c','e','-','t','c','p']] ∧
+    Txdbus.Gen.C09Endpoints.unixPathRules.map (·.1) = [['p','a','t','h'], ['t','m','p','d','i','r'], ['a','b','s','t','r','a','c','t']] ∧
     (Txdbus.Gen.C09Endpoints.entrySep, Txdbus.Gen.C09Endpoints.componentSep, Txdbus.Gen.C09Endpoints.keyValueSep) =
-      (';', ',', '=') := by decide
+      (';', ',', '=') ∧
+    (Txdbus.Gen.C09Endpoints.sessionWord, Txdbus.Gen.C09Endpoints.systemWord) =
+      (['s','e','s','s','i','o','n'], ['s','y','s','t','e','m']) := by decide
 
 /-- The bus address list is cut into its entries in listed order: for entries `pieces` (none containing
 ';') joined by ';', the parser walks exactly `pieces`, front to back (`entries` conses the endpoint of
@@ -174,7 +178,8 @@ each entry onto those of the later ones), so the order of the endpoint list hand
 walk is `first_reachable_in_order` - is the listed order. -/
 theorem address_list_in_listed_order (env : Env) (pieces : List Str) (hne : pieces ≠ [])
     (hsep : ∀ p ∈ pieces, ';' ∉ p)
-    (hs : joinWith ';' pieces ≠ "session".toList) (hy : joinWith ';' pieces ≠ "system".toList) :
+    (hs : joinWith ';' pieces ≠ Txdbus.Gen.C09Endpoints.sessionWord)
+    (hy : joinWith ';' pieces ≠ Txdbus.Gen.C09Endpoints.systemWord) :
     getDBusEndpoints env (joinWith ';' pieces) = entries env.pid pieces none := by
   have hsep' : Txdbus.Gen.C09Endpoints.entrySep = ';' := by decide
   simp only [getDBusEndpoints, hs, hy, if_false, hsep']
